@@ -29,7 +29,7 @@ def pan7_empty_batch_is_applicable(ctx):
     ctx.rule('PAN-7', 'Buffer::push_typed_cols (applies a batch to a table buffer, also during replay) has a '
                       'path from entry to return that passes no assert!/panic! - the path of a batch without '
                       'rows; otherwise a zero-row table buffer, already written to the log, panics ingestion '
-                      'and every later start-up', floor=1)
+                      'and every later start-up', floor=2)
     P = ctx.P
     F = P.one('ingest::buffer::Buffer::push_typed_cols')
     F.parse()
@@ -48,6 +48,19 @@ def pan7_empty_batch_is_applicable(ctx):
     reach = cfg.reachable_from(0, avoid=guards | pan)
     ok = (0 not in guards) and any(r in reach for r in rets)
     pushes = [blk.id for (blk, t) in F.calls() if not blk.cleanup and re.search(r'ColumnBuffer::push_', norm_callee(t.func or ''))]
+    # the conversion of a wire column into an input column runs on the same path (ingestion after the
+    # segment is logged, and replay): it must not assert on the relation between a column's length and
+    # the table's row count - a shorter column means trailing NULLs
+    G = P.one('ingest::input_column::InputColumn::from_column_data')
+    G.parse()
+    gpan = _diverging_panic_blocks(G)
+    gsrc = [blk for bid, blk in G.blocks.items() if not blk.cleanup and blk.term is not None and blk.term.kind == 'switch'
+            and any(tg in gpan for (_v, tg) in blk.term.targets)]
+    ctx.check('PAN-7', 'InputColumn::from_column_data|no-shape-assertion', not gsrc,
+              'from_column_data contains %d assert!/panic! on the shape of a wire column%s' %
+              (len(gsrc), '' if not gsrc else ': a string column that ends before the table does (legal output of the '
+               'client row API) panics ingestion after the segment was logged, and every later start-up'),
+              where(gsrc[0].term) if gsrc else where(G.blocks[0].term))
     ctx.check('PAN-7', 'Buffer::push_typed_cols|empty-batch-path', ok,
               '%d shape assertion(s) (assert! on lengths), %d column pushes; %s' %
               (len(guards), len(pushes),
@@ -199,3 +212,81 @@ def flw24_integer_builder_differences(ctx):
                'is bypassed on some path (e.g. only evaluated for non-increasing steps): an upward step larger '
                'than i64::MAX leaves delta coding enabled and `curr - previous` overflows when the column is built'),
               where(chk[0][1]))
+
+
+# ------------------------------------------------------------------------------------ TBL-22
+def tbl22_client_column_push_uses_row_position(ctx):
+    """`ColumnBuffer::push(value, existing_len)` (client side of the ingestion message) appends a value
+    at row `existing_len`; rows the column did not mention so far are NULL.  Every arm that stores the
+    value has to place it at that row: a dense vector may be appended to only if its length equals the
+    row position (otherwise the column turns sparse), a sparse entry carries the row position, and an
+    arm that converts the representation re-dispatches with the same position.  An arm that never looks
+    at `existing_len` stores the value at the wrong row as soon as the column skipped one."""
+    ctx.rule('TBL-22', 'every arm of ColumnBuffer::push that stores the value uses the row position it was '
+                       'given (directly or by re-dispatching to push with it)', floor=10)
+    ast = ctx.ast
+    fn = ast.fn('ColumnBuffer::push', 'locustdb-serialization/src/event_buffer.rs')
+    pos = None
+    for prm in fn.get('params', []):
+        if prm.get('name') and prm.get('name') not in ('self', 'value'):
+            pos = prm['name']
+    pos = pos or 'existing_len'
+    ms = [m for m in find(fn, 'match')]
+    ctx.require(ms, 'TBL-22: ColumnBuffer::push has no match over (column data, value)')
+    m = max(ms, key=lambda x: len(x.get('arms', [])))
+    n = 0
+    for a in m.get('arms', []):
+        names = [x.get('path') or x.get('name') for x in walk(a['pat']) if isinstance(x, dict) and (x.get('path') or x.get('name'))]
+        variants = [x.split('::')[-1] for x in names if x and ('ColumnData::' in x or 'AnyVal::' in x)]
+        if 'Null' in variants:
+            continue                      # a NULL stores nothing
+        body = a['body']
+        b0 = body
+        while isinstance(b0, dict) and b0.get('k') == 'block' and len(b0.get('stmts', [])) == 1:
+            b0 = b0['stmts'][0]
+        if isinstance(b0, dict) and b0.get('k') == 'macro' and b0.get('path') in ('unimplemented', 'panic', 'todo', 'unreachable'):
+            continue
+        uses = [x for x in walk(body) if isinstance(x, dict) and x.get('k') == 'path' and x.get('path') == pos]
+        n += 1
+        label = '-'.join(variants) or 'arm%d' % n
+        ctx.check('TBL-22', 'ColumnBuffer::push|%s|uses-row-position' % label, bool(uses),
+                  'arm (%s) %s' % (', '.join(variants), 'places the value at row `%s`' % pos if uses else
+                                   'never looks at `%s`: after a skipped row the value is stored at an earlier row' % pos),
+                  'locustdb-serialization/src/event_buffer.rs:%s' % a['pat'].get('l'))
+    ctx.require(n >= 10, 'TBL-22: fewer than 10 storing arms in ColumnBuffer::push (%d)' % n)
+
+
+# ------------------------------------------------------------------------------------ FLW-27
+def flw27_zero_row_tables_dropped_first(ctx):
+    """A table buffer without rows must leave no trace: if it created the table and its catalogue rows,
+    the table would have no partition after the next flush, would not be restored by a restart, and the
+    next real batch would create it - and its catalogue rows - a second time (`SELECT *` then returns
+    every column twice)."""
+    ctx.rule('FLW-27', 'ingest_efficient drops table buffers without rows before it creates tables, writes '
+                       'catalogue rows or hands the request to the log', floor=1)
+    P = ctx.P
+    F = P.one('InnerLocustDB::ingest_efficient')
+    F.parse()
+    cfg = CFG(F)
+    drops = []
+    for blk, t in F.calls():
+        if blk.cleanup or not norm_callee(t.func or '').endswith('HashMap::retain'):
+            continue
+        if 'TableBuffer' not in (t.func or ''):
+            continue
+        for cb in P.closures_in_text(t.func or ''):
+            cb.parse()
+            if any(norm_callee(c.func or '').endswith('TableBuffer::len') or norm_callee(c.func or '').endswith('TableBuffer::is_empty')
+                   for (_b, c) in cb.calls()):
+                drops.append((blk, t))
+    firsts = [(blk, t) for (blk, t) in F.calls() if not blk.cleanup and
+              (norm_callee(t.func or '').endswith('InnerLocustDB::create_if_empty_no_ingest') or
+               'std::thread::spawn' in norm_callee(t.func or '') or norm_callee(t.func or '').endswith('thread::spawn'))]
+    ctx.require(firsts, 'FLW-27: ingest_efficient neither creates tables nor spawns the log writer (anchor)')
+    ok = bool(drops) and all(any(cfg.dominates(db_.id, fb.id) and db_.id != fb.id for (db_, _t) in drops) for (fb, _f) in firsts)
+    ctx.check('FLW-27', 'ingest_efficient|zero-row-tables-dropped-first', ok,
+              'table buffers with len() == 0 %s' % ('are removed from the request before any table is created and before the '
+                                                    'log writer is started' if ok else
+                                                    'are not removed up front: a zero-row batch creates the table and its '
+                                                    'catalogue rows, which are written again after the next flush + restart'),
+              where(drops[0][1]) if drops else where(firsts[0][1]))
